@@ -6,6 +6,7 @@ import (
 	"go/token"
 	"go/types"
 	"math"
+	"os"
 	"sort"
 	"strings"
 	"unicode/utf8"
@@ -239,7 +240,11 @@ func (it *k4interp) call(f *ssa.Function, args []k4val, fvs []k4val) ([]k4val, e
 			case *ssa.Call:
 				// calls are evaluated in program order; an opaque result that the model does not
 				// define stays unevaluated (it is an error only if control flow depends on it)
-				if _, err := it.eval(fr, x); err == errK4Undecided {
+				_, err := it.eval(fr, x)
+				if err != nil && err != errK4Undecided && os.Getenv("SFCHECK_K4DEBUG") != "" {
+					fmt.Fprintf(os.Stderr, "k4: call %s in %s: %v\n", x, FuncName(fr.fn), err)
+				}
+				if err == errK4Undecided {
 					if k, ok := it.keyOf(fr, x); ok {
 						it.calls = append(it.calls, k)
 						delete(it.m.Missing, "bool "+k)
@@ -841,6 +846,23 @@ func (it *k4interp) eval1(fr *k4frame, v ssa.Value) (k4val, error) {
 				}
 			}
 			return it.opaque(fr, x)
+		}
+		// arithmetic on a number that a callee handed back unevaluated (an opaque call
+		// whose value the model did not define when the callee returned it): the model
+		// lacks that number
+		if isNumeric(x.X.Type()) && isNumeric(x.Y.Type()) {
+			lacking := false
+			for _, o := range []k4val{a, b} {
+				if o.kind == 3 && strings.Contains(o.s, "(") {
+					if _, has := it.m.Num[o.s]; !has {
+						it.m.Missing["num "+o.s] = true
+						lacking = true
+					}
+				}
+			}
+			if lacking {
+				return k4val{}, errK4Undecided
+			}
 		}
 		return k4val{}, fmt.Errorf("cannot evaluate %s on %s and %s", x.Op, a, b)
 	case *ssa.Phi:
